@@ -2,7 +2,9 @@ package e2
 
 import (
 	"fmt"
+	"regexp"
 	"sort"
+	"strconv"
 	"time"
 
 	"github.com/pingcap/kvproto/pkg/metapb"
@@ -32,6 +34,8 @@ type adminIntent struct {
 
 var adminDesc = map[string]string{"transfer-leader": "admin-transfer-leader", "transfer-region": "admin-move-region", "transfer-peer": "admin-move-peer",
 	"add-peer": "admin-add-peer", "add-learner": "admin-add-learner", "remove-peer": "admin-remove-peer", "merge": "admin-merge-region", "split": "admin-split-region"}
+
+var curStepRe = regexp.MustCompile(`currentStep:(\d+)`)
 
 func endStatus(s operator.OpStatus) bool { return operator.IsEndStatus(s) }
 
@@ -201,16 +205,11 @@ func runOpWorld(rc *corepkg, prop string) {
 						pr := ow.pdRegion(t.region)
 						// C09 allows a cancellation when the current step's own precondition does not hold (whether a step may
 						// find its precondition broken without foreign interference is C08's question, not this one's)
-						if pr != nil {
-							for i := 0; i < t.op.Len(); i++ {
-								if t.op.Step(i).IsFinish(pr) {
-									continue
-								}
-								if t.op.Step(i).CheckSafety(pr) != nil {
-									rc.Extra["cancelled_by_own_step_precondition"]++
-									return
-								}
-								break
+						// (the operator's own notion of its current step: it has ended, so printing it has no side effect any more)
+						if m := curStepRe.FindStringSubmatch(t.op.String()); pr != nil && m != nil {
+							if i, _ := strconv.Atoi(m[1]); i < t.op.Len() && t.op.Step(i).CheckSafety(pr) != nil {
+								rc.Extra["cancelled_by_own_step_precondition"]++
+								return
 							}
 						}
 						diag := ""
@@ -337,6 +336,16 @@ func runOpWorld(rc *corepkg, prop string) {
 	}
 	ow.start()
 	simrt.Sleep(3 * time.Second)
+	if prop == "c09" && rc.Knob("influence_observer", 2) == 1 {
+		// schedulers look at the influence of the running operators all the time (which also makes an operator notice
+		// that its time is up); they are disabled in this world, so a task does it in their place
+		s.Spawn(-1, "influence-observer", func() {
+			for !ow.stop && len(rc.Viol) == 0 {
+				ow.onPD("op-influence", func() { ow.oc.GetOpInfluence(ow.Cl) })
+				simrt.Sleep(time.Duration(300+s.Choose(2000, "obs.gap")) * time.Millisecond)
+			}
+		})
+	}
 	// ---- admin client
 	nOps := 4 + rc.Knob("admin_ops", 20)
 	done := false
@@ -433,11 +442,22 @@ func runOpWorld(rc *corepkg, prop string) {
 			if foreignEvents && err == nil && rc.Extra["stuck_region_scenarios"] == 0 && s.Choose(30, "adm.vanish") == 0 && !r.Merged {
 				rc.Extra["stuck_region_scenarios"]++
 				ow.deafUntil[r.ID] = time.Now().Add(30 * time.Minute)
-				// (heartbeats are sparse during the long wait: nothing but the clock matters here)
+				// the region neither executes commands nor reports; everybody else heartbeats sparsely meanwhile (nothing
+				// but the clock matters here); the region disappears shortly after its operator's wait time has run out
+				ow.mute[r.ID] = true
 				hbWas := ow.hbEvery
 				ow.hbEvery = 20 * time.Second
-				simrt.Sleep(time.Duration(11+s.Choose(3, "adm.vanish.wait")) * time.Minute)
+				wait := 10*time.Minute + 10*time.Second
+				if op := ow.oc.GetOperator(r.ID); op != nil {
+					limit := 10 * time.Minute
+					if op.Kind()&operator.OpRegion == 0 {
+						limit = 10 * time.Second
+					}
+					wait = time.Until(op.GetStartTime().Add(limit))
+				}
+				simrt.Sleep(wait + time.Duration(s.Choose(8000, "adm.vanish.jitter"))*time.Millisecond)
 				ow.hbEvery = hbWas
+				delete(ow.mute, r.ID)
 				if n := ow.M.RightNeighbour(r); n != nil && !r.Merged && !r.InJoint() && !n.InJoint() && simtikv.SameStores(r, n) {
 					ow.M.Merge(r, n)
 					ow.noteForeign(r.ID)
